@@ -204,3 +204,50 @@ def ulp_bars(r, n, level=None):
         c = r.choice([x, h])
         out.append((c, h, x, c, float(r.choice([0, 1, 5, 5]))))
     return out
+
+
+# ---- auxiliary family, run by every check for the bit-exact tie only (never judged by a property predicate): Clone::clone_from into an
+# instance that already exists with ANOTHER period or fill state (hand-written clone_from implementations that reuse the destination's
+# window: stale slots beyond the copied part, a ring shorter than the new period), then both fed on in lock-step
+def aux_clone_cases():
+    cases = []
+    for ind in ALL:
+        if nper(ind) == 0:
+            continue
+        for tag, psrc, pdst, nsrc, ndst in (("grow", 3, 5, 7, 9), ("shrink", 5, 3, 9, 7), ("same_warm", 4, 4, 1, 9), ("into_fresh_big", 2, 6, 5, 0)):
+            k = nper(ind)
+            def pr(p):
+                return (p, 3 if k >= 2 else 0, 2 if k >= 3 else 0, 2.0 if ind in HAS_MULT else 0.0)
+            ops = [new_op(0, ind, pr(psrc)), new_op(1, ind, pr(pdst))]
+            ops += [(o[0], 1) + tuple(o[2:]) for o in long_feed(ind, ndst, "spike" if False else "plain")]
+            ops += [(o[0], 0) + tuple(v * 0.01 if (o[0] == "n" or i < 4) else v for i, v in enumerate(o[2:])) for o in long_feed(ind, nsrc)]
+            ops += [("c", 0, 1), ("d", 1)]
+            for o in long_feed(ind, 2 * max(psrc, pdst) + 4):
+                sc = tuple(v * 0.5 if (o[0] == "n" or i < 4) else v for i, v in enumerate(o[2:]))
+                ops += [(o[0], 0) + sc, (o[0], 1) + sc]
+            ops += [("r", 1)] + [(o[0], 1) + tuple(o[2:]) for o in long_feed(ind, 3)]
+            cases.append(Case("aux_clonefrom_%s_%s" % (ind, tag), ops, dump=(0, 1), meta={"ind": ind, "aux": True, "p": psrc}))
+    return cases
+
+
+# ---- second auxiliary family (T1 only): windows larger than 2^11 and 2^12 slots, fed until the ring has wrapped twice — code paths that
+# only exist for large periods (blocked / chunked loops, "exact refresh on each wrap for big windows", narrower index types)
+BIGP = ["SMA", "WMA", "SD", "MAD", "MIN", "MAX", "BB", "ROC", "ER", "MFI", "CCI", "FAST", "SLOW", "CE"]
+
+
+def aux_bigperiod_cases():
+    cases = []
+    for ind in BIGP:
+        for p, n in ((2500, 5700), (4100, 8400)):
+            if ind in ("MAD", "CCI", "ER") and p > 3000:
+                continue                       # O(period) work per step on both sides: period 2500 only
+            k = nper(ind)
+            pr = (p, 3 if k >= 2 else 0, 2 if k >= 3 else 0, 2.0 if ind in HAS_MULT else 0.0)
+            fd = long_feed(ind, n, "plain")
+            # a slow trend on top of the period-101 pattern: every window position sees distinct sums and extremes
+            ops = [new_op(0, ind, pr)]
+            for j, o in enumerate(fd):
+                t = 1.0 + 1e-4 * j
+                ops.append((o[0], 0) + tuple(v * t if (o[0] == "n" or i < 4) else v for i, v in enumerate(o[2:])))
+            cases.append(Case("aux_bigp_%s_p%d" % (ind, p), ops, dump=(), meta={"ind": ind, "aux": True, "p": p}))
+    return cases
